@@ -450,6 +450,30 @@ func (t *CT) um1(a int) int { return t.v + a*6 + 301 }
 //go:noinline
 func (t *CT) um2(a int) int { return t.v + a*7 + 302 }
 
+//go:noinline
+func (t *CT) um3(a int) int { return t.v + a*8 + 303 }
+
+//go:noinline
+func (t *CT) um4(a int) int { return t.v + a*9 + 304 }
+
+var phu3 = func(t *CT, a int) int {
+	x := a
+	for i := 0; i < len(sink); i++ {
+		x += sink[(i+2)&7]*19 - sink[(i+5)&7]*23
+		sink[i&7] ^= x
+	}
+	return x
+}
+
+var phu4 = func(t *CT, a int) int {
+	x := a
+	for i := 0; i < len(sink); i++ {
+		x = x*29 + sink[(i+6)&7]
+		sink[(i+1)&7] += x
+	}
+	return x
+}
+
 var phu0 = func(t *CT, a int) int {
 	x := a
 	for i := 0; i < len(sink); i++ {
